@@ -145,6 +145,17 @@ type c16Leader struct {
 	Cur     string
 	D       *c16Data
 	WOpen   bool
+	Tail    []byte // appended to the leader's open writer once a stream reader of the session is open
+}
+
+// the leader's contents once the tail has arrived
+func (l c16Leader) grown() *c16Data {
+	if l.D == nil || len(l.Tail) == 0 {
+		return l.D
+	}
+	d := *l.D
+	d.Bytes = append(append([]byte(nil), l.D.Bytes...), l.Tail...)
+	return &d
 }
 
 func c16B(b bool) string {
@@ -163,15 +174,18 @@ func (l c16Leader) String() string {
 		}
 		ids = strings.Join(p, ",")
 	}
-	return fmt.Sprintf("%s:%s:%s:%s:%s", c16B(l.Started), ids, c16Id(l.Cur), l.D.String(), c16B(l.WOpen))
+	return fmt.Sprintf("%s:%s:%s:%s:%s:%s", c16B(l.Started), ids, c16Id(l.Cur), l.D.String(), c16B(l.WOpen), vfutil.Hex(l.Tail))
 }
 
 func c16ParseLeader(s string) c16Leader {
 	f := strings.Split(s, ":")
-	if len(f) != 5 {
+	if len(f) == 5 {
+		f = append(f, "-")
+	}
+	if len(f) != 6 {
 		panic("bad leader spec " + s)
 	}
-	l := c16Leader{Started: f[0] == "1", Cur: c16UnId(f[2]), D: c16ParseData(f[3]), WOpen: f[4] == "1"}
+	l := c16Leader{Started: f[0] == "1", Cur: c16UnId(f[2]), D: c16ParseData(f[3]), WOpen: f[4] == "1", Tail: vfutil.UnHex(f[5])}
 	if f[1] != "." {
 		for _, x := range strings.Split(f[1], ",") {
 			l.Ids = append(l.Ids, c16UnId(x))
@@ -309,7 +323,14 @@ func c16NewChannel(bk string, dir string, logSize int64) Channel {
 // c16Fill writes d into the channel's current run id through the real writers.
 // With keepOpen the AOF writer stays open (a live leader); the returned func closes it.
 func c16Fill(ch Channel, d *c16Data, keepOpen bool) (closeFn func(), err error) {
+	closeFn, _, err = c16FillW(ch, d, keepOpen)
+	return
+}
+
+// c16FillW also returns a function appending more stream bytes through the open writer.
+func c16FillW(ch Channel, d *c16Data, keepOpen bool) (closeFn func(), appendFn func([]byte) error, err error) {
 	closeFn = func() {}
+	appendFn = func([]byte) error { return errors.New("no open writer") }
 	if d == nil {
 		return
 	}
@@ -317,7 +338,7 @@ func c16Fill(ch Channel, d *c16Data, keepOpen bool) (closeFn func(), err error) 
 		pr, pw := io.Pipe()
 		w, e := ch.NewRdbWriter(bufio.NewReader(pr), d.Base, int64(len(d.Snap)))
 		if e != nil {
-			return closeFn, e
+			return closeFn, appendFn, e
 		}
 		w.Start()
 		if len(d.Snap) > 0 {
@@ -327,14 +348,14 @@ func c16Fill(ch Channel, d *c16Data, keepOpen bool) (closeFn func(), err error) 
 		w.Close()
 		pw.Close()
 		if e != nil {
-			return closeFn, fmt.Errorf("fill snapshot: %v", e)
+			return closeFn, appendFn, fmt.Errorf("fill snapshot: %v", e)
 		}
 	}
 	if len(d.Bytes) > 0 || keepOpen {
 		pr, pw := io.Pipe()
 		w, e := ch.NewAofWritter(bufio.NewReader(pr), d.Base)
 		if e != nil {
-			return closeFn, e
+			return closeFn, appendFn, e
 		}
 		w.Start()
 		if len(d.Bytes) > 0 {
@@ -344,9 +365,17 @@ func c16Fill(ch Channel, d *c16Data, keepOpen bool) (closeFn func(), err error) 
 		latest := func() int64 { sp, _ := ch.StartPoint(nil); return sp.Offset }
 		c16Wait(func() bool { return latest() == d.right() }, 3*time.Second)
 		if latest() != d.right() {
-			return closeFn, fmt.Errorf("fill aof: right %d want %d", latest(), d.right())
+			return closeFn, appendFn, fmt.Errorf("fill aof: right %d want %d", latest(), d.right())
 		}
 		closeFn = func() { w.Close(); pw.Close() }
+		appendFn = func(b []byte) error {
+			want := latest() + int64(len(b))
+			pw.Write(b)
+			if !c16Wait(func() bool { return latest() == want }, 3*time.Second) {
+				return fmt.Errorf("append: right %d want %d", latest(), want)
+			}
+			return nil
+		}
 		if !keepOpen {
 			closeFn()
 			closeFn = func() {}
@@ -403,33 +432,79 @@ func c16Wait(cond func() bool, max time.Duration) bool {
 	return true
 }
 
-// read n bytes from the channel's reader at off (with a deadline)
-func c16ReadAt(ch Channel, id string, off int64, n int) ([]byte, bool, error) {
+// one reader opened at off: reads up to len(buf) bytes, gives up when no byte arrives
+// for `idle`
+func c16ReadOnce(ch Channel, id string, off int64, buf []byte, idle time.Duration) (int, bool, error) {
 	rd, err := ch.NewReader(Offset{RunId: id, Offset: off})
 	if err != nil {
-		return nil, false, err
+		return 0, false, err
 	}
 	w := usync.NewWaitCloser(nil)
 	rd.Start(w)
-	buf := make([]byte, n)
-	res := make(chan error, 1)
-	go func() {
-		_, e := io.ReadFull(rd.IoReader(), buf)
-		res <- e
-	}()
-	select {
-	case err = <-res:
-	case <-time.After(3 * time.Second):
-		err = fmt.Errorf("%w: timeout", c16ErrRead)
-	}
 	isAof := rd.IsAof()
+	type part struct {
+		n   int
+		err error
+	}
+	parts := make(chan part, 16)
+	stop := make(chan struct{})
+	go func() {
+		got := 0
+		for got < len(buf) {
+			n, e := rd.IoReader().Read(buf[got:])
+			got += n
+			select {
+			case parts <- part{n, e}:
+			case <-stop:
+				return
+			}
+			if e != nil {
+				return
+			}
+		}
+	}()
+	got := 0
+	for got < len(buf) && err == nil {
+		select {
+		case p := <-parts:
+			got += p.n
+			if p.err != nil && got < len(buf) {
+				err = p.err
+			}
+		case <-time.After(idle):
+			err = fmt.Errorf("%w: no byte for %v at offset %d", c16ErrRead, idle, off+int64(got))
+		}
+	}
+	close(stop)
 	w.Close(nil)
 	rd.Close()
-	return buf, isAof, err
+	return got, isAof, err
+}
+
+// read n bytes at off. A reader that stops making progress although the channel offers
+// the range (memory backend: a segment left open by a closed writer) is replaced by a
+// fresh reader at the offset reached; `stalls` counts that.
+func c16ReadAt(ch Channel, id string, off int64, n int) (buf []byte, isAof bool, stalls int, err error) {
+	buf = make([]byte, n)
+	got := 0
+	for got < n {
+		var k int
+		k, isAof, err = c16ReadOnce(ch, id, off+int64(got), buf[got:], 2*time.Second)
+		got += k
+		if err == nil {
+			break
+		}
+		if k == 0 || !errors.Is(err, c16ErrRead) {
+			return
+		}
+		stalls++
+		err = nil
+	}
+	return
 }
 
 // what the channel API serves under its current id
-func c16ObserveAPI(ch Channel) (cur string, d *c16Data, problems []string) {
+func c16ObserveAPI(ch Channel) (cur string, d *c16Data, problems []string, stalls int) {
 	cur = ch.RunId()
 	if cur == "" {
 		return
@@ -444,7 +519,8 @@ func c16ObserveAPI(ch Channel) (cur string, d *c16Data, problems []string) {
 		d.HasSnap = true
 		d.Base = rl
 		if rs > 0 {
-			b, isAof, err := c16ReadAt(ch, cur, rl-1, int(rs))
+			b, isAof, st, err := c16ReadAt(ch, cur, rl-1, int(rs))
+			stalls += st
 			if err != nil || isAof {
 				problems = append(problems, fmt.Sprintf("snapshot (%d,%d) offered but not readable: aof=%v err=%v", rl, rs, isAof, err))
 			}
@@ -457,7 +533,8 @@ func c16ObserveAPI(ch Channel) (cur string, d *c16Data, problems []string) {
 		}
 		d.Base = l
 		if r > l {
-			b, isAof, err := c16ReadAt(ch, cur, l, int(r-l))
+			b, isAof, st, err := c16ReadAt(ch, cur, l, int(r-l))
+			stalls += st
 			if err != nil || !isAof {
 				problems = append(problems, fmt.Sprintf("range [%d,%d] offered but not readable: aof=%v err=%v", l, r, isAof, err))
 			}
@@ -549,7 +626,7 @@ func c16SameData(a, b *c16Data) bool {
 
 // c16Observe returns the follower's store and structural problems
 // (non-contiguous segments, API/file disagreement, unreadable ranges).
-func c16Observe(bk string, ch Channel, dir string) (c16Store, []string) {
+func c16Observe(bk string, ch Channel, dir string) (c16Store, []string, int) {
 	var st c16Store
 	var problems []string
 	if bk == "d" {
@@ -558,21 +635,22 @@ func c16Observe(bk string, ch Channel, dir string) (c16Store, []string) {
 		if st.Cur != "" {
 			// the next user of the channel re-reads the directory first (StartPoint -> VerifyRunId)
 			ch.StartPoint([]string{st.Cur})
-			cur, d, p2 := c16ObserveAPI(ch)
+			cur, d, p2, stalls := c16ObserveAPI(ch)
 			problems = append(problems, p2...)
 			fd, _ := st.get(cur)
 			if cur != st.Cur || !c16SameData(d, fd) {
 				problems = append(problems, fmt.Sprintf("channel serves %s=%s, files hold %s", cur, d.String(), fd.String()))
 			}
+			return st, problems, stalls
 		}
-		return st, problems
+		return st, problems, 0
 	}
-	cur, d, problems := c16ObserveAPI(ch)
+	cur, d, problems, stalls := c16ObserveAPI(ch)
 	st.Cur = cur
 	if d != nil {
 		st.Dirs = []c16Entry{{cur, d}}
 	}
-	return st, problems
+	return st, problems, stalls
 }
 
 // ---------------------------------------------------------------- fake gRPC
@@ -601,6 +679,9 @@ type c16Net struct {
 	aofBytes  int64
 	everAof   bool
 	fch       Channel
+	tail      []byte
+	grow      func([]byte) error
+	growErr   error
 }
 
 type c16Srv struct {
@@ -618,6 +699,20 @@ func (s *c16Srv) push(r *pb.SyncResponse) error {
 }
 
 func (s *c16Srv) Send(r *pb.SyncResponse) error {
+	if r.GetCode() == pb.SyncResponse_META && r.GetMeta().GetAof() {
+		// the leader's stream reader is open: its input goes on writing
+		s.n.mu.Lock()
+		tail := s.n.tail
+		s.n.tail = nil
+		s.n.mu.Unlock()
+		if len(tail) > 0 {
+			err := s.n.grow(tail)
+			s.n.mu.Lock()
+			s.n.growErr = err
+			s.n.lright += int64(len(tail))
+			s.n.mu.Unlock()
+		}
+	}
 	if s.n.split > 0 && r.GetCode() == pb.SyncResponse_CONTINUE && len(r.GetData()) > 1 {
 		// what sendData emits had ioReader.Read returned smaller pieces
 		data := r.GetData()
@@ -807,7 +902,7 @@ func c16Session(t *testing.T, bk string, logSize int64, fch Channel, r c16Round,
 			return
 		}
 	}
-	closeW, err := c16Fill(lch, r.L.D, r.L.WOpen)
+	closeW, appendW, err := c16FillW(lch, r.L.D, r.L.WOpen)
 	if err != nil {
 		return
 	}
@@ -827,7 +922,8 @@ func c16Session(t *testing.T, bk string, logSize int64, fch Channel, r c16Round,
 	if r.L.D != nil {
 		lright = r.L.D.right()
 	}
-	net := &c16Net{leader: leader, lwait: lwait, ctx: ctx, cancel: cancel, cut: cut, split: r.Split, quiet: r.Quiet, rnd: rnd, lright: lright, fch: fch}
+	net := &c16Net{leader: leader, lwait: lwait, ctx: ctx, cancel: cancel, cut: cut, split: r.Split, quiet: r.Quiet, rnd: rnd, lright: lright, fch: fch,
+		tail: r.L.Tail, grow: appendW}
 	rf := NewReplicaFollower(1, "vf-addr", fch, nil)
 
 	state := 1
@@ -881,6 +977,9 @@ loop:
 	rf.wait.Close(nil)
 	lwait.Close(nil)
 
+	if net.growErr != nil {
+		return res, net.growErr
+	}
 	res.msgs = net.delivered
 	res.stage = map[int]string{1: "hs", 2: "pre", 3: "meta", 4: "rdb", 5: "aof", 6: "end"}[state]
 	var last *pb.SyncResponse
@@ -923,7 +1022,7 @@ func c16CheckFaithful(before, after c16Store, L c16Leader) (string, string) {
 		old, _ := before.get(e.Id)
 		var ld *c16Data
 		if e.Id == L.Cur {
-			ld = L.D
+			ld = L.grown()
 		}
 		for i, b := range e.D.Bytes {
 			o := e.D.Base + int64(i)
@@ -972,7 +1071,7 @@ func (x *c16Ctx) runCase(t *testing.T, c c16Case, src string) (uncutMsgs []int) 
 			return
 		}
 		defer func() { fch.Close(); os.RemoveAll(dir) }()
-		before, problems := c16Observe(c.Bk, fch, dir)
+		before, problems, _ := c16Observe(c.Bk, fch, dir)
 		if len(problems) > 0 || before.String() != c.F.String() {
 			// the constructed state is not the requested one: not a statement about the follower
 			s.Count("skip_initial_state_differs")
@@ -991,7 +1090,12 @@ func (x *c16Ctx) runCase(t *testing.T, c c16Case, src string) (uncutMsgs []int) 
 				t.Logf("c16: cannot build leader %s: %v", r.L.String(), err)
 				return
 			}
-			after, problems := c16Observe(c.Bk, fch, dir)
+			after, problems, stalls := c16Observe(c.Bk, fch, dir)
+			if stalls > 0 {
+				// the bytes are there, but a reader does not get past a segment boundary (C05's claim
+				// "a reader keeps following"): counted, not a C16 verdict
+				s.Add("reader_stall_at_boundary", stalls)
+			}
 			uncutMsgs = append(uncutMsgs, len(res.msgs))
 
 			replay := map[string]interface{}{"case": c.String(), "round": ri, "leader": r.L.String(), "follower_before": before.String(),
@@ -1153,6 +1257,9 @@ func c16GenLeader(r *vfutil.Rand, id string) c16Leader {
 	if l.D == nil && l.WOpen {
 		l.D = &c16Data{Base: base}
 	}
+	if l.D != nil && l.WOpen && r.Chance(1, 2) { // a live leader: more stream arrives during the session
+		l.Tail = c16HistSeg(id, l.D.right(), l.D.right()+int64(r.Range(1, 200)))
+	}
 	switch r.Intn(24) {
 	case 0:
 		l.Started = false
@@ -1265,6 +1372,9 @@ func c16GenCase(r *vfutil.Rand) c16Case {
 	if r.Chance(1, 10) && l.D != nil { // the leader is more than 10 MiB ahead of anything the follower holds
 		sh := int64(11 * 1024 * 1024)
 		l.D = c16MkData(lid, l.D.Base+sh, l.D.right()+sh, l.D.HasSnap)
+		if len(l.Tail) > 0 {
+			l.Tail = c16HistSeg(lid, l.D.right(), l.D.right()+int64(len(l.Tail)))
+		}
 	}
 	rd := c16Round{L: l, Cut: -1, Quiet: true}
 	if r.Chance(1, 3) {
@@ -1317,6 +1427,10 @@ func c16Evolve(r *vfutil.Rand, l c16Leader) c16Leader {
 	n.Started = true
 	n.WOpen = true
 	n.D = c16MkData(id, base, right, snap)
+	n.Tail = nil
+	if r.Chance(1, 3) {
+		n.Tail = c16HistSeg(id, right, right+int64(r.Range(1, 100)))
+	}
 	return n
 }
 
